@@ -265,4 +265,33 @@ theorem applyRenamesGo_spec {α} (new : List α) :
       simp only [List.length_append, List.append_assoc, Nat.add_assoc] at this ⊢
       rw [this]
 
+-- ------------------------------------------------------------------ apply_fixes
+
+theorem splice_mid {α} (pre g t x nw : List α) :
+    splice (pre ++ g ++ t ++ x) ⟨pre.length + g.length, pre.length + g.length + t.length, nw⟩
+      = some (pre ++ g ++ nw ++ x) := by
+  unfold splice
+  rw [if_pos (by simp; omega)]
+  have h1 : (pre ++ g ++ t ++ x).take (pre.length + g.length) = pre ++ g := by
+    rw [List.append_assoc (pre ++ g)]
+    exact List.take_left' (by simp)
+  have h2 : (pre ++ g ++ t ++ x).drop (pre.length + g.length + t.length) = x := by
+    exact List.drop_left' (by simp [Nat.add_assoc])
+  simp only [h1, h2]
+
+theorem applyFixes_foldr {α} :
+    ∀ (segs : List (List α × List α × List α)) (pre last : List α),
+      (fixesOf pre.length segs).foldr (fun f acc => acc.bind (splice · f)) (some (pre ++ buildText3 segs last))
+        = some (pre ++ buildFixed segs last)
+  | [], pre, last => by simp [fixesOf, buildText3, buildFixed]
+  | (g, t, nw) :: rest, pre, last => by
+      simp only [fixesOf, buildText3, buildFixed, List.foldr_cons]
+      have ih := applyFixes_foldr rest (pre ++ g ++ t) last
+      simp only [List.length_append] at ih
+      simp only [List.append_assoc] at ih
+      simp only [List.append_assoc, ih, Option.bind_some]
+      have := splice_mid pre g t (buildFixed rest last) nw
+      simp only [List.append_assoc] at this
+      exact this
+
 end Validators
